@@ -172,6 +172,7 @@ class Inliner:
         self.stack = [own_name]
         self.counter = 0
         self.n_inlined = 0
+        self.exprs_only = False  # only single-expression predicate / value helpers, in expression position
         self.peer_names: set[str] = set()  # parameters of the caller tested by isinstance(<p>, <own class>): same helpers apply
 
     # ---- callee resolution
@@ -406,8 +407,12 @@ class Inliner:
             e, neg = e.operand, True
         if not isinstance(e, ast.Call) or (holder == "value" and not neg):
             return None
-        if self.resolve(e) is None:
+        r0 = self.resolve(e)
+        if r0 is None:
             return None
+        body0 = [s_ for s_ in r0[0].body if not _is_docstring(s_)]
+        if len(body0) == 1 and isinstance(body0[0], ast.Return) and body0[0].value is not None:
+            return None  # a single-expression helper is substituted in place by inline_exprs: the test stays a readable condition
         self.counter += 1
         tmp = f"__cond{self.counter}"
         asg = ast.copy_location(ast.Assign(targets=[ast.Name(id=tmp, ctx=ast.Store())], value=e), st)
@@ -448,16 +453,17 @@ class Inliner:
     def process_body(self, body: list[ast.stmt], caller_names: set[str], depth: int = 0) -> list[ast.stmt]:
         out: list[ast.stmt] = []
         for st in body:
-            rep = self.inline_stmt(st, caller_names, depth)
-            if rep is not None:
-                out.extend(rep)
-                continue
-            pre = self.hoist_test(st, caller_names, depth)
-            if pre is not None:
-                out.extend(pre)
-            pre = self.hoist_arg(st, caller_names, depth)
-            if pre is not None:
-                out.extend(pre)
+            if not self.exprs_only:
+                rep = self.inline_stmt(st, caller_names, depth)
+                if rep is not None:
+                    out.extend(rep)
+                    continue
+                pre = self.hoist_test(st, caller_names, depth)
+                if pre is not None:
+                    out.extend(pre)
+                pre = self.hoist_arg(st, caller_names, depth)
+                if pre is not None:
+                    out.extend(pre)
             self.inline_exprs(st, caller_names)
             for fld in ("body", "orelse", "finalbody"):
                 sub = getattr(st, fld, None)
@@ -1113,6 +1119,13 @@ def local_normalise(fn: ast.FunctionDef) -> ast.FunctionDef:
     return new
 
 
+def inline_pure(fi) -> ast.AST:
+    """The function as written, except that calls of private single-expression helpers (`def _p(a, b): return <expr>`) in
+    expression position are replaced by that expression: what a predicate helper tests is then visible to guard-fact
+    readers.  Used for the as-written view (no statement-level inlining, so no helper site is reported twice)."""
+    return local_normalise(_inline_helpers(fi, exprs_only=True))
+
+
 def inline(fi) -> ast.AST:
     """Normalised copy of fi.raw_node: private helpers inlined, field aliases propagated (the node itself when
     nothing applies)."""
@@ -1132,7 +1145,7 @@ def inline(fi) -> ast.AST:
     return new
 
 
-def _inline_helpers(fi) -> ast.AST:
+def _inline_helpers(fi, exprs_only: bool = False) -> ast.AST:
     fn = fi.raw_node
     mod = fi.module
     mod_funcs = {q: f.raw_node for q, f in mod.functions.items() if f.cls is None and "." not in q}
@@ -1171,6 +1184,7 @@ def _inline_helpers(fi) -> ast.AST:
         return fn
     new = copy.deepcopy(fn)
     inl = Inliner(mod_funcs, methods, class_names, selfn, fn.name)
+    inl.exprs_only = exprs_only
     if selfn is not None:
         params = {a.arg for a in fn.args.args[1:]}
         stored = {n.id for n in ast.walk(fn) if isinstance(n, ast.Name) and isinstance(n.ctx, (ast.Store, ast.Del))}
